@@ -290,7 +290,9 @@ Section MemoryCore.
      object k may be USED (Call / Shelve / Check / ClearFunc through its wrapper) only while
        - its source file has not been overwritten by a Define of different source text, and
        - no object of different source text has been used since k itself was last used
-         (first use is always fine).
+         (first use is always fine); this clause only concerns callables that can enter
+         _FUNCTION_HASHES ([named]): lambdas, partials and other callables without a __name__
+         never take the in-memory fast path.
      Events that are not executable (no such live, wrapped object) are ignored. *)
   Record mon := {
     m_live : list nat; m_wraps : list nat; m_stale : list nat; m_called : list nat; m_cur : option src
@@ -303,7 +305,8 @@ Section MemoryCore.
 
   Definition use (m : mon) (k : nat) : option mon :=
     if mem_nat k (m_wraps m) then
-      if negb (mem_nat k (m_stale m)) && (negb (mem_nat k (m_called m)) || cur_is m (code C k))
+      if negb (mem_nat k (m_stale m))
+         && (negb (named C k) || negb (mem_nat k (m_called m)) || cur_is m (code C k))
       then Some {| m_live := m_live m; m_wraps := m_wraps m; m_stale := m_stale m;
                    m_called := k :: m_called m; m_cur := Some (code C k) |}
       else None
